@@ -8,6 +8,7 @@ CONSTANTS
   Fmts = {"bc"}
   NFiles = {1}
   Lazy = {"other"}
+  ProbeMax = 5
   Touches = {"lookup"}
   Variant = "design"
 CONSTRAINT Emit
